@@ -1573,8 +1573,6 @@ class SQLModel:
             )
         if using is None:
             using = OrderedSet(join_node.column_names)
-        if len(using) < 1:
-            raise ValueError("join must use or select at least one column")
         missing = using - set(join_node.column_names)
         if len(missing) > 0:
             raise KeyError("referred to unknown columns: " + str(missing))
@@ -1605,6 +1603,9 @@ class SQLModel:
             temp_id_source = [0]
         if using is None:
             using = OrderedSet(join_node.column_names)
+        if len(using) < 1:
+            # only the rows are asked for (a count above): carry one column
+            using = OrderedSet(join_node.column_names[:1])
         view_name = f"natural_join_{temp_id_source[0]}"
         left_q = f"join_source_left_{temp_id_source[0]}"
         right_q = f"join_source_right_{temp_id_source[0]}"
@@ -1689,7 +1690,8 @@ class SQLModel:
         if using is None:
             using = OrderedSet(concat_node.column_names)
         if len(using) < 1:
-            raise ValueError("must select at least one column")
+            # only the rows are asked for (a count above): carry one column
+            using = OrderedSet(concat_node.column_names[:1])
         missing = using - set(concat_node.column_names)
         if len(missing) > 0:
             raise KeyError("referred to unknown columns: " + str(missing))
